@@ -139,17 +139,33 @@ static void report_leak_diagnosis(Scn& s, long k, long base_blocks) {
   (void) base_blocks;
 }
 
+// innermost library frames of the failed request (skipping the allocator, operator new, GMP and std:: helpers)
+static std::string fault_site() {
+  std::string r; int n = 0;
+  for (int j = 0; j < c14::bt_throw_len && n < 4; ++j) {
+    const char* nm; c14::fn_of(c14::bt_throw[j], &nm);
+    if (nm[0] == '?' || std::strncmp(nm, "_Zn", 3) == 0 || std::strncmp(nm, "__gmp", 5) == 0 || std::strstr(nm, "c14")) continue;
+    char buf[300]; std::string d = c14::demangle(nm, buf, sizeof buf);
+    if (d.compare(0, 5, "std::") == 0 || d.compare(0, 11, "__gnu_cxx::") == 0 || d.find("__gmp_expr") == 0) continue;
+    if (d == "main" || d.find("sweep") == 0 || d.find("LScn::") == 0 || d.find("DScn<") == 0 || d.find("MipScn") == 0 || d.find("PipScn") == 0) break;
+    size_t pos = d.find("Parma_Polyhedra_Library::"); while (pos != std::string::npos) { d.erase(pos, 25); pos = d.find("Parma_Polyhedra_Library::"); }
+    for (size_t i = 0; i < d.size(); ++i) if (d[i] == ' ') d[i] = '_';
+    r += (n ? "<" : "") + d; ++n;
+  }
+  return r.empty() ? "?" : r;
+}
+
 struct SweepStat { long positions, exn, leaks, invalid, unusable, argchg, strong_kept, spurious; SweepStat() : positions(0), exn(0), leaks(0), invalid(0), unusable(0), argchg(0), strong_kept(0), spurious(0) {} };
 
-static int sweep(Scn& s, long maxk, const std::string& layers) {
+static int sweep(Scn& s, long maxk, const std::string& layers, long startk = 1) {
   c14::inject_new = layers.find('n') != std::string::npos;
   c14::inject_gmp = layers.find('g') != std::string::npos;
   // warm-up: function-local statics, stream locale, caches
   s.build(); s.call(); bool v0 = s.valid(); std::string r0 = s.result(); s.destroy(); purge_caches();
-  std::cout << "scenario " << s.name << " warm valid=" << v0 << "\n";
+  std::cout << "scenario " << s.name << " warm valid=" << v0 << std::endl;
   SweepStat st; long k;
   bool completed = false;
-  for (k = 1; k <= maxk; ++k) {
+  for (k = startk; k <= maxk; ++k) {
     purge_caches();
     long base = c14::live_blocks, base_bytes = c14::live_bytes;
     s.build();
@@ -161,6 +177,8 @@ static int sweep(Scn& s, long maxk, const std::string& layers) {
     c14::disarm();
     bool fired = c14::fired; int layer = c14::fired_layer; const char* caller = c14::fired_caller; size_t fsz = c14::fired_size;
     long nnew = c14::new_seen, ngmp = c14::gmp_seen, gskip = c14::gmp_skipped;
+    std::string site = fired ? fault_site() : std::string("-");
+    if (fired) std::cout << "fault k=" << k << " out=" << out << " layer=" << (layer == c14::L_NEW ? "new" : "gmp") << " size=" << fsz << " at=" << site << std::endl;
     bool valid = false, use = false, arg = false, strong = false; std::string chk_exn = "";
     try { valid = s.valid(); arg = s.arg_unchanged(); strong = valid && s.strong(); use = valid && s.usable(); }
     catch (const std::exception& e) { chk_exn = exn_name(e); }
@@ -179,9 +197,9 @@ static int sweep(Scn& s, long maxk, const std::string& layers) {
     ++st.positions;
     if (out != "ok") ++st.exn;
     if (leak != 0) ++st.leaks; if (!valid) ++st.invalid; if (!use) ++st.unusable; if (!arg) ++st.argchg; if (strong) ++st.strong_kept;
-    std::cout << "k=" << k << " out=" << out << " fired=1 layer=" << (layer == c14::L_NEW ? "new" : "gmp") << " size=" << fsz << " caller=" << caller
+    std::cout << "k=" << k << " out=" << out << " fired=1 layer=" << (layer == c14::L_NEW ? "new" : "gmp") << " size=" << fsz << " caller=" << caller << " at=" << site
               << " leak=" << leak << " lbytes=" << lbytes << " valid=" << valid << " use=" << use << " arg=" << arg << " strong=" << strong
-              << (chk_exn.empty() ? "" : " chkexn=" + chk_exn) << "\n";
+              << (chk_exn.empty() ? "" : " chkexn=" + chk_exn) << std::endl;
     if (leak != 0 && g_verbose_leak) report_leak_diagnosis(s, k, base);
   }
   // the library is intact: the same scenario without fault gives the same result
@@ -320,7 +338,7 @@ int main(int argc, char** argv) {
   if (!s) { std::cerr << "unknown scenario " << argv[2] << "\n"; return 2; }
   long maxk = argc > 3 ? std::atol(argv[3]) : 100000;
   std::string layers = argc > 4 ? argv[4] : "ng";
-  if (mode == "sweep") return sweep(*s, maxk, layers);
+  if (mode == "sweep") return sweep(*s, maxk, layers, argc > 5 ? std::atol(argv[5]) : 1);
   if (mode == "trace") return trace(*s, maxk);
   if (mode == "abandon") return abandon(*s, maxk);
   if (mode == "weight") return weight(*s, maxk > 1000 ? 40 : maxk);
